@@ -62,6 +62,34 @@ fn judge(slice: &[u8], t: &mut crate::par::Tally, what: &str) {
         }
     };
     t.evals += 1;
+    // the connection fed one byte at a time must behave like the connection fed greedily
+    {
+        let mut c1 = Conn::new(limit);
+        let mut out1: Vec<SpecRequest> = vec![];
+        let mut err1: Option<String> = None;
+        for b in slice {
+            match feed(&mut c1, &[*b]) {
+                Ok((rs, e)) => {
+                    out1.extend(rs);
+                    if e.is_some() {
+                        err1 = e;
+                        break;
+                    }
+                }
+                Err(p) => {
+                    t.violate("panic", format!("connection panicked on {:?} fed byte by byte: {}", util::show(slice), p), json!({"engine": "c14", "slice": util::hex(slice)}));
+                    return;
+                }
+            }
+        }
+        if out1 != fed.0 || err1.is_some() != fed.1.is_some() {
+            t.violate(
+                "connection-segmentation",
+                format!("connection fed {:?} greedily delivers {} requests (error {:?}), fed byte by byte {} requests (error {:?}) ({})", util::show(slice), fed.0.len(), fed.1, out1.len(), err1, what),
+                json!({"engine": "c14", "slice": util::hex(slice)}),
+            );
+        }
+    }
     let lines_ok = {
         // every line up to the end of the header block within the line limit
         let mut ok = true;
